@@ -9,7 +9,7 @@ CONSTANTS
   Grid <- GridM
   NumGadgets = 5
   Tols <- TolsM
-  Bug = "none"
+  Bug = "max_before_abs"
 INVARIANT AccumulationExact
 INVARIANT SameOperator
 INVARIANT RowsSumToOne
